@@ -29,7 +29,8 @@ RUNS_PER_UNIVERSE = C.RUNS_PER_UNIVERSE
 def prepare(verif_seed, index):
     """Warm the universe-level caches (generated code of every chain) in the group process."""
     useed = rngm.derive('universe', verif_seed, PROP, index // C.RUNS_PER_UNIVERSE)
-    C.gen_universe(rngm.stream(useed, 'universe'))
+    infos = C.gen_universe(rngm.stream(useed, 'universe'))
+    C.warm_hot_lines(infos)
 
 
 def run_one(verif_seed, index, tier='quick'):
@@ -107,6 +108,7 @@ def summarise(r):
         'n_ops': n_ops, 'classes': classes, 'n_clients': len(plan['clients']),
         'n_modules': len(plan['universe']), 'setup': plan.get('setup'),
         'chain_len': max([len(static_chains(plan)[m['id']]) for m in plan['universe']] or [0]),
+        'pairs': [list(x) for x in r.get('pairs', [])][:200],
     }
     if r['violations']:
         s['violations'] = [{'index': r['index'], 'violation': r['violations'][0], 'plan': plan,
@@ -134,7 +136,7 @@ def new_aggregate():
     return {'counters': {}, 'steps': 0, 'switches': 0, 'judged': 0, 'policies': {}, 'classes': {},
             'distinct': set(), 'distinct_nontrivial': set(), 'sigs': set(), 'digests': {}, 'samples': [],
             'baseline_runs': 0, 'baseline_judged': 0, 'ops': 0, 'empty': 0, 'setup': {}, 'chain_len': {},
-            'clients': {}}
+            'clients': {}, 'pairs': set()}
 
 
 def aggregate(agg, s):
@@ -159,6 +161,8 @@ def aggregate(agg, s):
     agg['clients'][str(s['n_clients'])] = agg['clients'].get(str(s['n_clients']), 0) + 1
     agg['distinct'].add(s['distinct'])
     agg['sigs'].add(s['sig'])
+    for a, b in s.get('pairs', []):
+        agg['pairs'].add((a, b))
     if s['nontrivial']:
         agg['distinct_nontrivial'].add(s['distinct'])
     if s['baseline']:
@@ -189,6 +193,11 @@ def coverage(agg):
         'samples': samples,
         'distinct_runs': len(agg['distinct']),
         'distinct_schedule_signatures': len(agg['sigs']),
+        'distinct_overlap_pairs': len(agg['pairs']),
+        'overlap_pairs_note': 'pair = (function the pre-empted client was executing, function the resumed client is parked in) '
+                              'at a switch; rule functions carry the generated rule names, so the count grows with the universes',
+        'overlap_pairs_driver_only': sorted([list(p) for p in agg['pairs'] if not (p[0].startswith('_try_') or p[1].startswith('_try_')
+                                                                                    or p[0].startswith('_parse_function') or p[1].startswith('_parse_function'))])[:60],
         'simulated_steps_total': agg['steps'],
         'simulated_time_note': 'the only clock is the step counter (one step = one line event of the system under test)',
         'operations_executed': agg['ops'],
